@@ -11,6 +11,7 @@ Exit codes: 0 = held on everything explored, 1 = violated (prints
 """
 import hashlib
 import json
+import re
 import os
 import shutil
 import subprocess
@@ -237,6 +238,14 @@ def crash_signal(r):
     names = {-11: "SIGSEGV", -7: "SIGBUS", -4: "SIGILL"}
     if rc in names:
         return names[rc] + " (rc=%d)" % rc
+    if rc == 101:
+        # a Rust panic that ended the process. Panics inside monitored calls are caught and reported by the
+        # monitors; one that escapes is a harness failure - unless it was raised inside the code under test
+        # (the harness called it at a place it did not guard): then it is that code's panic
+        tail = r.get("err", "")[-30000:]
+        m = re.search(r"panicked at (%s/src/[^\s:]+):(\d+)" % re.escape(REPO), tail)
+        if m:
+            return "PANIC in the code under test at %s:%s (outside a guarded call of the harness)" % (m.group(1), m.group(2))
     if rc == -6:
         tail = r.get("err", "")[-2000:]
         if "memory allocation of" in tail:
